@@ -1,5 +1,6 @@
 // C15 -- answer lookup kernel: real setAnswer / getAnswer / createAnswerKey of DirectProtocolHandler against a
 // reference longest-prefix lookup. DESIGN.md section 4/C15 "K c15_lookup".
+#include <new>
 #include "env_bus.h"
 using namespace ebusd;
 namespace ebusd {
@@ -31,10 +32,13 @@ extern "C" void vp_main() {
   cfg.answer = true;
   // static (typed) objects instead of heap objects: CBMC's points-to sets are field-insensitive for dynamic objects, which
   // makes every pointer loaded from a heap-allocated handler "point to" everything the handler references
-  static TapeTransport trs;
-  static PlainDevice devs(&trs);
-  static RecListener lst;
-  static DirectProtocolHandler h(cfg, &devs, &lst);
+  // Only the members the lookup touches are constructed (m_config.answer, m_answerByKey, m_command, m_response): the full
+  // handler (queues, stream, 256-entry address table) makes the encoding intractable and plays no role in the lookup
+  DirectProtocolHandler& h = *static_cast<DirectProtocolHandler*>(operator new(sizeof(DirectProtocolHandler)));
+  const_cast<ebus_protocol_config_t&>(h.m_config).answer = true;
+  new (&h.m_answerByKey) std::map<uint64_t, SlaveSymbolString>();
+  new (&h.m_command) MasterSymbolString();
+  new (&h.m_response) SlaveSymbolString();
   Reg reg[NREG];
   for (int i = 0; i < NREG; i++) {
     Reg& g = reg[i];
@@ -49,7 +53,7 @@ extern "C" void vp_main() {
     for (int k = 0; k < 3; k++) { g.ans[k] = vp_nondet_u8(); }
     g.ans[0] = static_cast<uint8_t>(g.alen - 1);
     for (int k = 0; k < ALEN; k++) a.push_back(g.ans[k]);
-    g.ok = h.setAnswer(g.src, g.dst, g.pb, g.sb, g.id, g.idLen, a);
+    g.ok = h.DirectProtocolHandler::setAnswer(g.src, g.dst, g.pb, g.sb, g.id, g.idLen, a);
     // documented registration rule: valid non-broadcast destination, source SYN (= any) or a master
     bool refOk = g.dst != 0xAA && g.dst != 0xA9 && g.dst != 0xFE && (g.src == 0xAA || refMaster(g.src));
     vp_assert("registration-accepted-iff-valid-addresses", g.ok == refOk);
